@@ -110,7 +110,7 @@ func genSession(t *rapid.T, o sessOpts) sessCase {
 			}
 		}
 	}
-	if !sc.Cfg.Auth && rapid.IntRange(0, 4).Draw(t, "preconnect") == 0 {
+	if !sc.Cfg.Auth && rapid.IntRange(0, 2).Draw(t, "preconnect") == 0 {
 		// a QoS -1 PUBLISH on a predefined or short topic before the CONNECT: the gateway does not know
 		// the client ID yet when it resolves the predefined ID
 		for j := rapid.IntRange(1, 2).Draw(t, "npre"); j > 0; j-- {
